@@ -10,7 +10,7 @@ from typing import Any
 from vlib import common, tlc, listhost, listreplay
 
 ALL_OPS = ('{"append","extend","insert","pop","delitem","delslice","setitem","setslice","clear","remove",'
-           '"discard","mset","mdel","mpop","edit"}')
+           '"discard","mset","mdel","mpop","edit","iadd","reverse","msetdefault","mupdate"}')
 INVS = ['ClaimOK', 'FrameOK', 'RefusalOK', 'NoDupItems', 'TypeOK']
 
 KINDS = {
@@ -30,7 +30,7 @@ def constants(h: listhost.Host, *, depth: int, lens: str, mode: str, idx: str = 
                 Ops=ops, Depth=str(depth), Attached='TRUE' if attached else 'FALSE')
 
 
-D2_OPS = '{"insert","pop","setitem","setslice","delslice","extend","mset","mdel","edit","remove"}'
+D2_OPS = '{"insert","pop","setitem","setslice","delslice","extend","mset","mdel","edit","remove","reverse","msetdefault"}'
 D3_OPS = '{"insert","pop","setslice","extend","edit","mset"}'
 
 
